@@ -211,6 +211,28 @@ seed("C19", "unwrapped-returns-all", "not-yet-wrapped history includes unwritten
 seed("C19", "mark-next-slot", "SetAsOldest marks the following slot", ["C19.Q3"],
      (FL, "\tfl.oldest = fl.currentIndex\n", "\tfl.oldest = fl.nextIndexAfter(fl.currentIndex)\n"))
 
+SNAP = "cmd/thermal-recorder/snapshot.go"
+SVC = "cmd/thermal-recorder/service.go"
+# ---- C16
+seed("C16", "copyrecent-unlocked", "CopyRecent without the ring lock", ["C16.R1", "C16.R2"],
+     (FL, "func (fl *FrameLoop) CopyRecent() *cptvframe.Frame {\n\tfl.mu.Lock()\n\tdefer fl.mu.Unlock()\n", "func (fl *FrameLoop) CopyRecent() *cptvframe.Frame {\n"))
+seed("C16", "framecount-plain-read", "frame counter read without atomic", ["C16.R1"],
+     (MP, "return atomic.LoadUint32(&mp.CurrentFrame), mp.frameLoop.CopyRecent()", "return mp.CurrentFrame, mp.frameLoop.CopyRecent()"))
+seed("C16", "copy-current-slot", "snapshot copies the slot being filled", ["C16.R2"],
+     (FL, "previousIndex := (fl.currentIndex - 1 + fl.size) % fl.size", "previousIndex := fl.currentIndex"))
+seed("C16", "publish-processor-unlocked", "processor published without the mutex (regression of f5c2f68)", ["C16.R1"],
+     (MAIN, "\tmu.Lock()\n\tprocessor = newProcessor\n\tmu.Unlock()\n", "\tprocessor = newProcessor\n"))
+seed("C16", "wait-loop-unlocked", "snapshot trigger polls processor without the mutex", ["C16.R1"],
+     (SNAP, "\tfor !haveProcessor() {", "\tfor processor == nil {"))
+seed("C16", "camerainfo-unlocked", "CameraInfo reads headerInfo without the mutex", ["C16.R1"],
+     (SVC, "\tmu.Lock()\n\theaderInfo := headerInfo\n\tmu.Unlock()\n", ""))
+seed("C16", "request-flag-plain", "request flag set with a plain store", ["C16.R1"],
+     (MP, "\tatomic.StoreUint32(&mp.startSnapshot, 1)", "\tmp.startSnapshot = 1"))
+seed("C16", "fill-oldest-slot", "ProcessFrame copies the source into the ring's oldest slot", ["C16.R3"],
+     (MP, "\tframe := mp.frameLoop.Current()\n\tframe.Copy(srcFrame)", "\tframe := mp.frameLoop.Oldest()\n\tframe.Copy(srcFrame)"))
+seed("C16", "requester-early-unlock", "newSnapshot releases the mutex before using the processor", ["C16.R4", "C16.R1"],
+     (SNAP, "func newSnapshot(lastFrame int) (*cptvframe.Frame, error) {\n\tmu.Lock()\n\tdefer mu.Unlock()\n", "func newSnapshot(lastFrame int) (*cptvframe.Frame, error) {\n\tmu.Lock()\n\tmu.Unlock()\n"))
+
 here = os.path.dirname(os.path.abspath(__file__))
 for pid, name, d in S:
     os.makedirs(os.path.join(here, pid), exist_ok=True)
